@@ -181,7 +181,13 @@ def SolaraViz(
                 )
         with solara.Card("Model Parameters"):
             ModelCreator(
-                model, model_params, model_parameters=reactive_model_parameters
+                model,
+                model_params,
+                model_parameters=reactive_model_parameters,
+                # SimulatorController creates the model with simulator=... as well
+                extra_keywords=("simulator",)
+                if isinstance(simulator, Simulator)
+                else (),
             )
         with solara.Card("Information"):
             ShowSteps(model.value)
@@ -501,6 +507,7 @@ def ModelCreator(
     user_params: dict,
     *,
     model_parameters: dict | solara.Reactive[dict] = None,
+    extra_keywords: tuple[str, ...] = (),
 ):
     """Solara component for creating and managing a model instance with user-defined parameters.
 
@@ -512,6 +519,8 @@ def ModelCreator(
         model: A reactive model instance. This is the main model to be created and managed.
         user_params: Parameters for (re-)instantiating a model. Can include user-adjustable parameters and fixed parameters. Defaults to None.
         model_parameters: reactive parameters for reinitializing the model
+        extra_keywords: names of keyword arguments the controller passes to the model's constructor
+            in addition to the parameters (``("simulator",)`` under a SimulatorController)
 
     Returns:
         solara.component: A Solara component that renders the model creation and management interface.
@@ -538,7 +547,9 @@ def ModelCreator(
     solara.use_effect(
         # the model is created with the fixed and the user-adjustable parameters
         lambda: _check_model_params(
-            model.value.__class__.__init__, {**fixed_params, **user_params}
+            model.value.__class__.__init__,
+            {**fixed_params, **user_params},
+            extra_keywords,
         ),
         [model.value],
     )
@@ -563,18 +574,27 @@ def ModelCreator(
     UserInputs(user_params, on_change=on_change)
 
 
-def _check_model_params(init_func, model_params):
+def _check_model_params(init_func, model_params, extra_keywords=()):
     """Check if model parameters are valid for the model's initialization function.
 
-    The parameters are valid if ``init_func(instance, **model_params)`` can be called.
+    The parameters are valid if ``init_func(instance, **extra, **model_params)`` can be called,
+    ``extra`` being the keyword arguments named in ``extra_keywords``.
 
     Args:
         init_func: Model initialization function (the unbound ``__init__``)
         model_params: Dictionary of model parameters
+        extra_keywords: Names of keyword arguments passed in addition to the parameters
 
     Raises:
         ValueError: If a parameter is not valid for the model's initialization function
     """
+    # a keyword that is passed anyway cannot be a model parameter too; apart from that it takes
+    # part in the call like the parameters
+    for name in extra_keywords:
+        if name in model_params:
+            raise ValueError(f"Invalid model parameter: {name}")
+    model_params = {**dict.fromkeys(extra_keywords), **model_params}
+
     kind = inspect.Parameter
     parameters = list(inspect.signature(init_func).parameters.values())
 
